@@ -3,3 +3,6 @@
 (declare-fun lnodec (Int Int) Int)
 ; excmatch(cls, err): err (an exception instance, class or ExceptionInfo) is an instance of class cls by inheritance
 (declare-fun excmatch (Int Iface) Bool)
+; loaded(ctx, name): module `name` is in the module store of context ctx; modof(ctx, name): that module
+(declare-fun loaded (Iface Str) Bool)
+(declare-fun modof (Iface Str) Int)
